@@ -3,7 +3,8 @@
    Model: models/Holds.v (overlord/snapstate/autorefresh_gating.go function by function); constants: gen/HoldConsts.v
    (regenerated from overlord/snapstate/autorefresh.go, autorefresh_gating.go and the two gating call sites).
    Snap 0 is the holder name `system`; times are nanoseconds; forty_eight_h and ninety_days are literal numbers.
-   A history is any list of operations Hold / SysHold / Proceed / Reset / Refreshed / Tick from a state without holds
+   A history is any list of operations Hold / SysHold / Proceed / Reset / RefreshAccepted / RefreshRefused / Refreshed / Tick
+   from a state without holds
    in which no last-refresh time lies in the future; `default_duration` says that every request by a gating snap asks
    for the default (zero = maximum) duration, which the translator checks for both production call sites. *)
 From Coq Require Import List NArith ZArith Bool.
@@ -60,6 +61,43 @@ Theorem C15_not_reported_after_expiry : forall (st : state) (level s g : N) (h :
   st_gating st s g = Some h -> h_until h < st_now st -> effective st level s g = false.
 Proof. exact not_reported_after_expiry. Qed.
 Print Assumptions C15_not_reported_after_expiry.
+
+(* refresh requests: the histories of every theorem in this file also range over RefreshAccepted / RefreshRefused. A
+   refresh request that is refused (running apps, conflict, ...) leaves every hold record as it was, so it neither ends
+   nor restarts a hold episode: the 48 h and 90 d bounds above stay counted from the FIRST hold of the episode. An
+   accepted one only removes records (of gating snaps, for the snaps being refreshed). *)
+Theorem C15_refused_refresh_changes_nothing : forall (st : state) (snaps : list N), step st (RefreshRefused snaps []) = st.
+Proof. exact refused_refresh_changes_nothing. Qed.
+Print Assumptions C15_refused_refresh_changes_nothing.
+
+(* `RefreshRefused snaps done` with done <> [] is what the code does for a request naming several snaps (UpdateMany) when
+   one of them causes the refusal after others had been prepared: the hold records of the prepared snaps are dropped
+   although nothing is refreshed. For such requests the statement `a refused request leaves every hold record alone`, and
+   with it the 48 h bound counted from the first hold, is FALSE of the faithful model (KNOWN_FINDINGS key
+   refused-updatemany-drops-holds, reproduced on the implementation on every run). What still holds: only records of
+   gating snaps for snaps of the request disappear, and C15_any_90d (whose histories include these steps). *)
+Theorem C15_refused_multi_snap_request_refuted : exists (lr0 : N -> Z) (now0 : Z) (ops : list op),
+  (forall s, lr0 s <= now0) /\ forallb default_duration ops = true /\
+  (forall o, In o ops -> forall l, o <> RefreshAccepted l) /\
+  let st := run (init_state lr0 now0) ops in
+  effective st 0 2 1 = true /\ now0 + forty_eight_h < st_now st.
+Proof.
+  exists (fun _ => - h_ns), 0, refused_many_witness. split; [intros _; discriminate|].
+  split; [exact (proj1 refused_many_witness_spec)|]. split.
+  - intros o Hin l. cbn in Hin. repeat (destruct Hin as [<-|Hin]; [discriminate|]). contradiction.
+  - exact (proj2 (proj2 refused_many_witness_spec)).
+Qed.
+Print Assumptions C15_refused_multi_snap_request_refuted.
+
+Theorem C15_refused_refresh_only_removes : forall (st : state) (snaps done : list N) (s g : N) (h : hold),
+  st_gating (step st (RefreshRefused snaps done)) s g = Some h -> st_gating st s g = Some h.
+Proof. exact refused_refresh_only_removes. Qed.
+Print Assumptions C15_refused_refresh_only_removes.
+
+Theorem C15_accepted_refresh_only_removes : forall (st : state) (snaps : list N) (s g : N) (h : hold),
+  st_gating (step st (RefreshAccepted snaps)) s g = Some h -> st_gating st s g = Some h.
+Proof. exact accepted_refresh_only_removes. Qed.
+Print Assumptions C15_accepted_refresh_only_removes.
 
 (* holds set by the administrator last until the requested time (forever = the largest duration) at the requested
    level and survive whatever gating snaps, refreshes and the clock do. `sys_until now t` is the exact end: now + 2^63-1 ns
